@@ -27,6 +27,10 @@ pub enum AsOp {
     /// a leaf future whose poll reads flag f, registers the waker, passes a scheduling point and
     /// answers from the stale read: the wake may arrive during the poll
     FlagWaitRacy(usize),
+    /// thread::park() called inside the task (blocks synchronously; spuriously wakeable)
+    Park,
+    /// unpark the main task (the thread that runs block_on)
+    UnparkMain,
     /// block_on(yield_now()) inside a task: nested block_on
     NestedBlockOnYield,
     /// block_on(leaf future for flag f) inside a task
@@ -105,11 +109,14 @@ pub struct AsObjs {
     /// accessed before every use of the shared slot: tasks communicate through Shuttle primitives only
     slot_sync: shuttle::sync::atomic::AtomicUsize,
     dummy: shuttle::sync::atomic::AtomicUsize,
+    main_thread: shuttle::thread::Thread,
     flags: Vec<Flag>,
 }
 
 #[derive(Clone, Debug, PartialEq, Eq, Hash)]
 pub struct AsM {
+    /// park state of the main task: (token, parked, woken)
+    park: (bool, bool, bool),
     set: Vec<bool>,
     /// which flag the parked shared future waits for (None = slot empty)
     shared: Option<usize>,
@@ -136,6 +143,7 @@ impl Family for AsyncFam {
             shared: RefCell::new(None),
             slot_sync: shuttle::sync::atomic::AtomicUsize::new(0),
             dummy: shuttle::sync::atomic::AtomicUsize::new(0),
+            main_thread: shuttle::thread::current(),
             flags: (0..*cfg)
                 .map(|_| Flag {
                     set: AtomicBool::new(false),
@@ -200,6 +208,14 @@ impl Family for AsyncFam {
                     StaleFuture { flag: &o.flags[*f], nested: None, dummy: &o.dummy }.await;
                     AsRes::Unit
                 }
+                AsOp::Park => {
+                    shuttle::thread::park();
+                    AsRes::Unit
+                }
+                AsOp::UnparkMain => {
+                    o.main_thread.unpark();
+                    AsRes::Unit
+                }
                 AsOp::NestedBlockOnYield => {
                     shuttle::future::block_on(shuttle::future::yield_now());
                     AsRes::Unit
@@ -215,6 +231,7 @@ impl Family for AsyncFam {
     fn yields(op: &AsOp) -> Option<bool> {
         match op {
             AsOp::Yield | AsOp::NestedBlockOnYield => Some(true),
+            AsOp::Park => None,
             _ => Some(false),
         }
     }
@@ -227,7 +244,7 @@ impl Family for AsyncFam {
     }
     fn m_abortable(op: &AsOp, phase: u8) -> bool {
         match op {
-            AsOp::NestedBlockOnYield | AsOp::NestedBlockOnFlag(_) => false,
+            AsOp::NestedBlockOnYield | AsOp::NestedBlockOnFlag(_) | AsOp::Park => false,
             // while it blocks synchronously inside its poll (phase 1) it cannot be cancelled
             AsOp::FlagWaitNested(..) => phase != 1,
             _ => true,
@@ -240,6 +257,7 @@ impl Family for AsyncFam {
             AsOp::FlagWaitStart(f) => vec![0xA00 + *f as u32, 0xB00],
             AsOp::FlagWaitShared => vec![0xB00, 0xA00, 0xA01],
             AsOp::Yield | AsOp::NestedBlockOnYield => vec![],
+            AsOp::Park | AsOp::UnparkMain => vec![0xC00],
         }
     }
     /// setting a flag (atomic store) -> every later completed wait on that flag (atomic load)
@@ -265,6 +283,7 @@ impl Family for AsyncFam {
     }
     fn m_init(cfg: &usize, _n: usize) -> AsM {
         AsM {
+            park: (false, false, false),
             set: vec![false; *cfg],
             shared: None,
         }
@@ -282,6 +301,41 @@ impl Family for AsyncFam {
             }
             AsOp::FlagSet(f) => {
                 n.set[*f] = true;
+                vec![MStep::Done(n, AsRes::Unit)]
+            }
+            // only the main task parks (programs are generated that way)
+            AsOp::Park => match phase {
+                0 => {
+                    if n.park.0 {
+                        n.park.0 = false;
+                        vec![MStep::Done(n, AsRes::Unit)]
+                    } else {
+                        n.park.1 = true;
+                        n.park.2 = false;
+                        vec![MStep::Cont(n, 1)]
+                    }
+                }
+                _ => {
+                    if n.park.2 {
+                        n.park.1 = false;
+                        n.park.2 = false;
+                        vec![MStep::Done(n, AsRes::Unit)]
+                    } else {
+                        n.park.1 = false;
+                        vec![MStep::Spurious(n, AsRes::Unit)]
+                    }
+                }
+            },
+            AsOp::UnparkMain => {
+                if n.park.1 {
+                    if !n.park.2 {
+                        n.park.2 = true;
+                    } else {
+                        n.park.0 = true;
+                    }
+                } else {
+                    n.park.0 = true;
+                }
                 vec![MStep::Done(n, AsRes::Unit)]
             }
             // each poll: ready if f is set; otherwise (nested variant) wait synchronously for g, then
@@ -388,6 +442,16 @@ fn g(ops: &[AsOp]) -> Vec<GOp<AsOp>> {
 }
 
 pub fn program_set(set: &str) -> Vec<Program<AsyncFam>> {
+    if set == "endings" {
+        // ending-oriented subset (C03): parked main task, detached tasks, never-woken futures
+        return program_set("quick")
+            .into_iter()
+            .filter(|p| {
+                p.threads.iter().flatten().any(|o| matches!(o, GOp::Op(AsOp::Park) | GOp::Detach(_)))
+                    && !p.threads.iter().flatten().any(|o| matches!(o, GOp::Abort(_)))
+            })
+            .collect();
+    }
     let thorough = set == "thorough";
     let mut out: Vec<Program<AsyncFam>> = Vec::new();
     let bodies: Vec<Vec<AsOp>> = vec![
@@ -477,6 +541,32 @@ pub fn program_set(set: &str) -> Vec<Program<AsyncFam>> {
                         });
                     }
                 }
+            }
+        }
+    }
+    // the main task parks; attached or detached tasks unpark it (or not)
+    for t1 in [vec![AsOp::UnparkMain], vec![AsOp::Yield, AsOp::UnparkMain], vec![AsOp::Yield], vec![AsOp::UnparkMain, AsOp::UnparkMain], vec![AsOp::FlagWait(0), AsOp::UnparkMain]] {
+        for t2 in [vec![], vec![AsOp::Yield], vec![AsOp::UnparkMain], vec![AsOp::FlagSet(0)]] {
+            for detach in 0..3 {
+                let mut main: Vec<GOp<AsOp>> = vec![GOp::Spawn(1), GOp::Spawn(2)];
+                match detach {
+                    0 => {}
+                    1 => main.push(GOp::Detach(1)),
+                    _ => {
+                        main.push(GOp::Detach(1));
+                        main.push(GOp::Detach(2));
+                    }
+                }
+                main.push(GOp::Op(AsOp::Park));
+                out.push(Program {
+                    cfg: 2,
+                    threads: vec![main.clone(), g(&t1), g(&t2)],
+                });
+                main.push(GOp::Op(AsOp::Park));
+                out.push(Program {
+                    cfg: 2,
+                    threads: vec![main, g(&t1), g(&t2)],
+                });
             }
         }
     }
